@@ -127,13 +127,20 @@ class C16(runner.Check):
 				mode = r.choice(["N", "lower", "lower"])
 				for k in range(p, q):
 					s[k] = "N" if mode == "N" else s[k].lower()
-			chroms.append({"name": "chr%s" % r.choice(["", "Un_"]) + str(i + 1),
-				"seq": "".join(s)})
+			# names with prefix collisions (chr1 / chr10 / chr1_alt) on purpose
+			nm = ["chr1", "chr10", "chr1_alt", "chrUn_2"][i] if r.chance(0.5) else \
+				"chr%s" % r.choice(["", "Un_"]) + str(i + 1)
+			while nm in [c["name"] for c in chroms]:
+				nm += "x"
+			chroms.append({"name": nm, "seq": "".join(s)})
+		neg = r.chance(0.2)
+
 		def track():
 			t = {}
 			for c in chroms:
 				L = len(c["seq"])
-				v = [float(r.choice([0, 0, 1, 2, 3, 0.5, 7])) for _ in range(L)]
+				v = [float(r.choice([0, 0, 1, 2, 3, 0.5, 7] + ([-1, -2] if neg else [])))
+					for _ in range(L)]
 				for _ in range(r.randint(0, 2)):
 					p = r.randint(0, L - 1)
 					for k in range(p, min(L, p + r.randint(1, 20))):
@@ -191,9 +198,9 @@ class C16(runner.Check):
 			"chroms": use_chroms, "n_loci": r.choice([None, None, r.randint(1, 6)]),
 			"min_counts": None, "max_counts": None, "target_idx": 0}
 		if signals and r.chance(0.4):
-			kw["min_counts"] = r.choice([0.25, 2.25, 10.25, 30.25])
+			kw["min_counts"] = r.choice([0, 0, 0.25, 2.25, 10.25, 30.25])
 		if signals and r.chance(0.3):
-			kw["max_counts"] = r.choice([5.25, 20.25, 60.25, 200.25])
+			kw["max_counts"] = r.choice([0, 0, 5.25, 20.25, 60.25, 200.25])
 		if signals and len(signals) > 1:
 			kw["target_idx"] = r.randint(0, len(signals) - 1)
 		b = S("schedule")
